@@ -55,6 +55,8 @@ class Contract:
     self_cls: str | None = None
     extern_patterns: dict = field(default_factory=dict)
     trace_name: str | None = None
+    result_name: str = "result"
+    name: str | None = None  # registry key when several contracts (variants) exist for one target
     assumes: list = field(default_factory=list)  # ids of assumed contracts / semantics assumptions (X.., PS.., E..)
 
 
@@ -102,5 +104,5 @@ REGISTRY: dict[str, Contract] = {}
 
 def contract(target, **kw) -> Contract:
     c = Contract(target=target, **kw)
-    REGISTRY[target] = c
+    REGISTRY[c.name or target] = c
     return c
